@@ -105,8 +105,9 @@ def run_mc(prop, name, module, cfg, workers, timeout, coverage_actions=()):
         raise ToolError(f"TLC did not finish {cfg}")
     # vacuity: every named action must have been taken
     for a in coverage_actions:
-        m = re.search(r"<" + re.escape(a) + r" line[^>]*>: (\d+):(\d+)", out)
-        if not m or int(m.group(2)) == 0:
+        # TLC prints interim coverage reports during long runs: the LAST report counts
+        ms = re.findall(r"<" + re.escape(a) + r" line[^>]*>: (\d+):(\d+)", out)
+        if not ms or int(ms[-1][1]) == 0:
             raise ToolError(f"vacuous model: action {a} never taken in {cfg}")
     res["ok"] = True
     return res
